@@ -356,6 +356,9 @@ func getAllFuncs(svc *parser.Service, tree *parser.Thrift, ret *[]funcTreePair) 
 			if sub != nil {
 				getAllFuncs(sub, subTree, &funcs)
 			}
+		} else if sub, _ := tree.GetService(svc.Extends); sub != nil && sub != svc {
+			// the base service is declared in the same file
+			getAllFuncs(sub, tree, &funcs)
 		}
 	}
 	*ret = funcs
